@@ -307,6 +307,9 @@ EXTRA_NOTES = {
            "(decimal/hex, leading zeros, hex-digit case; the one textual limit, int()'s 4300 characters on decimals, is part of the relation), mnemonic case, layout and comments. "
            "Props/C19Lex.v + Model/ToyLex.v: the TOY tokenizer is inside the model (domain: every Python string) — layout, comments, mnemonic case and number "
            "bases do not change the token lines (proved), and load_program(text) is compared with the model's lexer+assembler on the same text (requests 90/91).",
+    "C05": " Props/C05Text.v — FROM SOURCE TEXT (lexer + assembler + single-cycle execution): li_text_correct (every register spelling, every literal spelling py_int0 accepts, any layout and "
+           "case: the register holds c mod 2^32 afterwards, nothing else changes), la_text_correct / elem_text_correct for arbitrary data segments, help_example_from_text (the help page's "
+           "program copied as text gives the documented registers).",
     "C14": " Props/C14Lex.v closes the loop through the modelled grammar: lex_of_printed (the lexer reads every printed instruction back as its own tokens, any immediate), "
            "print_lex_assemble (rv_load_text of a printed listing, after any comment/blank lines, yields exactly that listing at the same addresses).",
     "C15": " Props/C15RvWholeText.v + Model/LexText.v: the same for WHOLE texts (str.splitlines inside the model; every boundary character). Props/C15RvText.v: for EVERY list of source lines the model's RISC-V lexer + assembler yields no error, one of the line-carrying parser errors with 1 <= line <= "
